@@ -408,7 +408,15 @@ def guard_rule(ck, mod, offs, incs, label):
         if direct:
             T, tb, reseed_succ, pass_succ, A, B = direct
             # per block: loads and test inside E's loop, and dominate E
-            inloop = (L == -1) or all(f.blocks[x.b].loop != -1 and _in_loop(f, x.b, L) for x in (A, B, T))
+            # the counter must be read and tested in every round; the limit may be read once before the loop when nothing the loop does can
+            # change it (no store to the limit field in generate itself or in the reseed function it calls)
+            cload, lload = (A, B) if ir.ptr_base(f, A.ops[0])[1] == c_off else (B, A)
+            lim_stable = not [w for (w, kk, i_) in field_writes(ck, mod, f, l_off, l_off + 4) if not (kk == "prng-call" and i_ == "tinyjambu_prng_reseed")] and \
+                not [w for (w, kk, _i) in field_writes(ck, mod, mod.fn("tinyjambu_prng_reseed"), l_off, l_off + 4)]
+            need = (cload, lload, T) if not lim_stable else (cload, T)
+            inloop = (L == -1) or all(f.blocks[x.b].loop != -1 and _in_loop(f, x.b, L) for x in need)
+            if lim_stable and L != -1 and not (f.blocks[lload.b].loop != -1 and _in_loop(f, lload.b, L)) and not f.dominates(lload.id, T.id):
+                inloop = False
             ck.ob(inloop, "R-C16-GUARD", f.name, "guard-per-block#%d[%s]" % (n, label),
                   "counter and limit are loaded and compared inside the block loop, before every block",
                   "the reseed check (%s) is outside the loop that emits blocks: it runs once per call, so one call can emit any amount" % relpath(T.where),
